@@ -1,12 +1,113 @@
 /-
-C20 / C42 sub-driver (filled in by the C20 / C42 work).
+C20 / C42 sub-driver.
+
+  rnode <id> <op|hoff|mod> <name>          a node of the pre-rewrite flat graph (slot order)            -> ok
+  redge <key> <src> <dst> <sport> <dport>  an edge (ffi key), in `edges()` order = insertion order      -> ok
+  merge                                    `merge_modules`                -> ok | err | panic
+  eliminate                                `eliminate_extra_unions_tees`  -> ok | panic
+  hinsert <edge key> <new node id>         `insert_intermediate_node(edge, Handoff)` -> `<k0> <k1>` | panic
+  rnodes                                   live node ids                  -> `1,2,5`
+  redges                                   edge list in iteration order   -> `key:src>dst key:src>dst …`
+  radj                                     adjacency lists per live node  -> `n:s=k,k;p=k n:…`
+  rwires                                   sorted wiring                  -> `src:sp>dst:dp …`
+  rvalid                                   `assert_valid` holds           -> true|false
+  enemyperm <u> <v> <w,w,..> | <w,w,..>    C42: remap the enemy set of `v` into `u` in two iteration orders;
+                                           answers whether the resulting enemy maps are equal as maps of sets -> true|false
 -/
-import HvPart.Model.Basic
+import HvPart.Model.DiMul
+import HvPart.Model.Merge
 namespace HvPart
 
 structure RwSt where
-  dummy : Nat := 0
+  r : RG := {}
+  bad : Bool := false
 
-def rwStep (_st : RwSt) (_ws : List String) : Option (RwSt × String) := none
+def rwNats (s : String) : Option (List Nat) :=
+  if s == "-" then some [] else (s.splitOn ",").mapM (·.toNat?)
+
+def rwDash (s : String) : String := if s.isEmpty then "-" else s
+
+def showNatsC (l : List Nat) : String := ",".intercalate (l.map toString)
+
+def wireLe (a b : Wire) : Bool :=
+  if a.1 != b.1 then a.1 < b.1
+  else if a.2.1 != b.2.1 then a.2.1 < b.2.1
+  else if a.2.2.1 != b.2.2.1 then a.2.2.1 < b.2.2.1
+  else a.2.2.2 ≤ b.2.2.2
+
+/-- `DiMulGraph::assert_valid` (as written, including that it checks `succs` twice) -/
+def dmgValid (g : DMG) : Bool :=
+  g.edges.all (fun e => (DMG.adj g.succs e.2.1).contains e.1 && (DMG.adj g.preds e.2.2).contains e.1)
+  && g.succs.all (fun p => (sortDedup p.2).length == p.2.length)
+  && g.edges.length == (g.succs.map (fun p => p.2.length)).sum
+  && g.edges.length == (g.preds.map (fun p => p.2.length)).sum
+
+/-- two enemy maps denote the same map of sets -/
+def enemiesEquiv (a b : List (Nat × List Nat)) : Bool :=
+  let keys := sortDedup (a.map (·.1) ++ b.map (·.1))
+  keys.all fun k => sortDedup ((aget a k).getD []) == sortDedup ((aget b k).getD [])
+
+/-- `nodes` is a slot map: iteration is by slot index, a new node may reuse a freed slot -/
+def insertNodeSorted (n : RNode) : List RNode → List RNode
+  | [] => [n]
+  | x :: t => if n.id < x.id then n :: x :: t else x :: insertNodeSorted n t
+
+def rwStep (st : RwSt) (ws : List String) : Option (RwSt × String) :=
+  match ws with
+  | ["rnode", id, kind, name] =>
+    match id.toNat? with
+    | some id => some ({ st with r := { st.r with nodes := st.r.nodes ++ [⟨id, kind, name⟩] } }, "ok")
+    | none => some (st, "bad-op")
+  | ["redge", k, s, d, sp, dp] =>
+    match k.toNat?, s.toNat?, d.toNat? with
+    | some k, some s, some d =>
+      let r := st.r
+      let n := r.g.edges.length + 1
+      some ({ st with r := { r with g := r.g.insertEdge k s d, ports := r.ports ++ [(k, sp, dp)],
+                                      alloc := SlotAlloc.ofFresh n } }, "ok")
+    | _, _, _ => some (st, "bad-op")
+  | ["merge"] =>
+    match st.r.mergeModules with
+    | some (.ok r) => some ({ st with r := r }, "ok")
+    | some (.error _) => some (st, "err")
+    | none => some ({ st with bad := true }, "panic")
+  | ["eliminate"] =>
+    match st.r.eliminateExtraUnionsTees with
+    | some r => some ({ st with r := r }, "ok")
+    | none => some ({ st with bad := true }, "panic")
+  | ["hinsert", e, v] =>
+    match e.toNat?, v.toNat? with
+    | some e, some v =>
+      let r := st.r
+      let a := r.alloc.release e
+      let (k0, a) := a.alloc
+      let (k1, a) := a.alloc
+      match r.g.insertIntermediateVertex k0 k1 v e with
+      | some g' =>
+        let p := r.portsOf e
+        some ({ st with r := { r with g := g', nodes := insertNodeSorted ⟨v, "hoff", "handoff"⟩ r.nodes,
+                                        ports := aset (aset (aerase r.ports e) k0 (p.1, "_")) k1 ("_", p.2), alloc := a } },
+              s!"{k0} {k1}")
+      | none => some (st, "panic")
+    | _, _ => some (st, "bad-op")
+  | ["rnodes"] => some (st, rwDash (showNatsC (st.r.nodes.map (·.id))))
+  | ["redges"] =>
+    some (st, rwDash (" ".intercalate (st.r.g.edges.map fun e => s!"{e.1}:{e.2.1}>{e.2.2}")))
+  | ["radj"] =>
+    some (st, rwDash (" ".intercalate (st.r.nodes.map fun n =>
+      s!"{n.id}:s={showNatsC (DMG.adj st.r.g.succs n.id)};p={showNatsC (DMG.adj st.r.g.preds n.id)}")))
+  | ["rwires"] =>
+    some (st, rwDash (" ".intercalate ((st.r.wires.mergeSort wireLe).map fun w => s!"{w.1}:{w.2.1}>{w.2.2.1}:{w.2.2.2}")))
+  | ["rvalid"] => some (st, if dmgValid st.r.g then "true" else "false")
+  | ["enemyperm", u, v, ws1, "|", ws2] =>
+    match u.toNat?, v.toNat?, rwNats ws1, rwNats ws2 with
+    | some u, some v, some ws1, some ws2 =>
+      -- a symmetric enemy map in which `v` has the enemies `ws1`
+      let en := ws1.foldl (fun en w => SM.addEnemy (SM.addEnemy en v w) w v) []
+      let a := SM.remapEnemies (aerase en v) u v ws1
+      let b := SM.remapEnemies (aerase en v) u v ws2
+      some (st, if enemiesEquiv a b then "true" else "false")
+    | _, _, _, _ => some (st, "bad-op")
+  | _ => none
 
 end HvPart
